@@ -4,6 +4,7 @@ excluded; it does not assert anything about results); records confirmed.tests / 
 import json, os, subprocess, sys
 from concurrent.futures import ThreadPoolExecutor
 SLOW = {'test/test_learn_ray_render.py'}
+STABLE = {'test/' + t.split('::')[0].split('.', 1)[1] + '.py' for t in json.load(open('/root/.vp/BASELINE.json'))['stable_pass']}   # the pinned suite; tests outside it already fail offline on the unchanged tree
 def sh(cmd, cwd=None, env=None, timeout=6000):
     p = subprocess.run(cmd, shell=True, cwd=cwd, env=env, stdout=subprocess.PIPE, stderr=subprocess.STDOUT, text=True, timeout=timeout)
     return p.returncode, p.stdout
@@ -17,7 +18,7 @@ def one(name):
         rc, o = sh('git apply %s' % os.path.join(d, 'patch.diff'), cwd=wt)
         if rc != 0: return name, 'patch does not apply: ' + o[-200:]
         tests = [t.split('::')[0] for t in m.get('tests_run', [])]
-        tests = sorted({t for t in tests if os.path.exists(os.path.join(wt, t)) and t not in SLOW})
+        tests = sorted({t for t in tests if os.path.exists(os.path.join(wt, t)) and t not in SLOW and t in STABLE})
         env = dict(os.environ, PYTHONPATH=wt, PYTHONWARNINGS='ignore', TQDM_DISABLE='1', OMP_NUM_THREADS='4')
         rc, o = sh('/venv/bin/python -m pytest -q -p no:cacheprovider --timeout=900 %s' % ' '.join(tests), cwd=wt, env=env) if tests else (0, 'no test file listed')
         m.setdefault('confirmed', {}).update({'tests': tests, 'tests_pass': rc == 0, 'tests_tail': o[-300:], 'tests_excluded_slow': sorted(SLOW & set(m.get('tests_run', [])))})
